@@ -106,7 +106,7 @@ def run(res, tier, seed, wd, replay=None):
             return out
         n = sum(extract_replay(o, beh) for o in pmap(gen, progs, par=3))
         trA = os.path.join(wd, "trace-hreplay.ndjson")
-        s, _ = cvh(["holder-replay", "--in", beh, "--out", trA], timeout=1800)
+        s, _ = cvh(["holder-replay", "--in", beh, "--out", trA, "--maxdiv", 4 if tier == "quick" else 30], timeout=1800)
         log("[A] %d TLC interleavings (%d steps) replayed on fresh SingletonHolders, threads parked at shim points: %d model divergences" % (
             s["behaviours"], s["steps"], s["model_divergences"]))
         res.divergences += s["first_divergences"]
